@@ -215,3 +215,19 @@ Proof.
     + replace (ps - nlen (page_of ps f p)) with 0 by lia. cbn [N.to_nat repeat]. apply app_nil_r.
   - intros Hps. destruct (N.ltb_spec 0 ps); [reflexivity|lia].
 Qed.
+
+(* ---------- the tracker never forgets: an invalidated (or evicted) page is reloaded on every later access ---------- *)
+Lemma invalidated_reload_proof c k :
+  pmem k (inval c) = true ->
+  snd (get_page c k) = match files c (fst k) with Some f => page_of (psize c) f (snd k) | None => [] end /\
+  pmem k (inval (fst (get_page c k))) = true.
+Proof.
+  intros Hi. unfold get_page. rewrite Hi, plookup_premove_same.
+  destruct (pcap c <=? nlen (premove k (inner c))).
+  - destruct (find_lru (atimes c)) as [[lk t]|].
+    + cbn [fst snd inval pmem]. rewrite Hi, orb_true_r. auto.
+    + destruct (premove k (inner c)) as [|[k0 x] rest].
+      * cbn [fst snd inval]. auto.
+      * cbn [fst snd inval pmem]. rewrite Hi, orb_true_r. auto.
+  - cbn [fst snd inval]. auto.
+Qed.
